@@ -28,7 +28,7 @@ def plan(tier):
                 'GetAttributes / GetAttributeList under every version, interleaved with other operations and engine '
                 'restarts on the same file, and through ProxyKmipClient; a cell is (object type, value class, '
                 'attribute or field, reader version, after-restart?)',
-        'min_monitor': {'objects_stored': 300, 'gets_compared': 800, 'attribute_sets_compared': 800, 'restarts': 30,
+        'min_monitor': {'objects_destroyed_beside_the_others': 100, 'objects_stored': 300, 'gets_compared': 800, 'attribute_sets_compared': 800, 'restarts': 30,
                         'client_roundtrips': 100, 'concurrent_reads_compared': 300},
         'assumptions': ['the managed object sub-tree of a Get response must equal the sub-tree sent in Register, item for item',
                         'a Cryptographic Usage Mask of 0 reported for an object registered without a mask is tolerated',
